@@ -9,6 +9,9 @@ set_option linter.unusedSectionVars false
 namespace Frappy.Props.C05
 open Frappy.Update Frappy.Spec.C05
 
+/-- (for the examples) values and errors are numbers, `!=` is inequality, every conversion succeeds -/
+def exO' : Oracle Nat Nat := ⟨fun a b => a == b, fun v => .ok v, fun v => .ok v⟩
+
 section sequential
 variable {V E X : Type} [DecidableEq E]
 
@@ -131,6 +134,16 @@ theorem change_announced (o : Oracle V E) (e : Entry V E) (now : Int) :
   constructor
   · intro v hv; unfold announceR; rw [emits_changed o e now v hv]; simp
   · intro x hx; unfold announceR; rw [emits_error o e now x hx]; simp
+
+/-- A parameter that is not exported never produces a message (and its cache entry evolves as that of any other);
+for an exported one `announceX` is the funnel. -/
+theorem unexported_silent (o : Oracle V E) (e : Entry V E) (now : Int) (r : VE V E) :
+    (announceX false o e now r).msg = none ∧ (announceX false o e now r).entry = (announceR o e now r).entry ∧
+    announceX true o e now r = announceR o e now r := by
+  simp [announceX]
+
+example : (announceX false exO' ⟨5, none, 100, 0⟩ 101 (.val 6)).entry.value = 6 ∧
+    (announceR exO' ⟨5, none, 100, 0⟩ 101 (.val 6)).msg ≠ none := by decide
 
 /-! ### parameter callbacks -/
 
